@@ -1178,6 +1178,13 @@ class FnTranslator:
             return pre, tup([nav('elem', es[0])] + es[1:]), kelem(ks[0])
         if name == 'getattr':
             pre, es, ks, _ = self.args_pre(n)
+            # an attribute of a protobuf message is a scalar or a protobuf field (message / repeated container), whatever
+            # its name: with a message as first argument the result is navigated like `obj.field` (harmless C02-6 reads the
+            # containers of the fresh pieces by `getattr(s, field_name)`)
+            if ks and ks[0] == PB and len(n.args) == 2:
+                if isinstance(n.args[1], ast.Constant) and n.args[1].value in self.w.scalar_attrs:
+                    return pre, SC, SCK
+                return pre, nav('field', es[0]), PB
             return pre, tup([nav('field', es[0])] + es[2:]), UNK
         if name == 'setattr':
             pre, es, ks, _ = self.args_pre(n)
